@@ -2,22 +2,47 @@ import Gms.Driver.Proto
 import Gms.Model.Num
 open Gms.Proto Gms.Num
 
-/-- One operand of a case: `(col <ty> <v>|null)` or `(lit <v>)` (typed by the model's `litTy`). -/
-structure Operand where
-  ty : ITy
-  v : Option Int
+/-- One operand of a case: `(col <ty> <v>|null)`, `(lit <v>)` (typed by the model's `litTy`),
+`(col d<scale> <coeff>|null)` or `(dlit <coeff> <scale>)`. -/
+inductive Operand where
+  | int (ty : ITy) (v : Option Int)
+  | dec (scale : Nat) (coeff : Option Int)
+
+def decScale? (t : String) : Option Nat :=
+  if t.startsWith "d" then (t.drop 1).toNat? else none
 
 def operand? : Sexp → Option Operand
-  | .list [.atom "col", .atom t, .atom "null"] => (ITy.ofName? t).map fun ty => { ty := ty, v := none }
   | .list [.atom "col", .atom t, v] =>
-    match ITy.ofName? t, v.int? with
-    | some ty, some i => some { ty := ty, v := some i }
-    | _, _ => none
+    let val : Option (Option Int) := match v with
+      | .atom "null" => some none
+      | v => v.int?.map some
+    match val with
+    | none => none
+    | some val =>
+      match ITy.ofName? t with
+      | some ty => some (.int ty val)
+      | none => (decScale? t).map fun sc => .dec sc val
   | .list [.atom "lit", v] =>
     match v.int? with
-    | some i => (litTy i).map fun ty => { ty := ty, v := some i }
+    | some i => (litTy i).map fun ty => .int ty (some i)
     | none => none
+  | .list [.atom "dlit", c, sc] =>
+    match c.int?, sc.nat? with
+    | some c, some sc => some (.dec sc (some c))
+    | _, _ => none
   | _ => none
+
+def Operand.isNull : Operand → Bool
+  | .int _ none | .dec _ none => true
+  | _ => false
+
+def Operand.toDec : Operand → Dec
+  | .int _ v => Dec.ofInt (v.getD 0)
+  | .dec sc c => { coeff := c.getD 0, scale := sc }
+
+def Operand.unsignedInt : Operand → Bool
+  | .int ty _ => ty.unsigned
+  | .dec _ _ => false
 
 def padLeft (s : String) (n : Nat) : String := String.ofList (List.replicate (n - s.length) '0') ++ s
 
@@ -33,47 +58,71 @@ def render : Obs → String
   | .dec c s => renderDec c s
   | .null => "null"
   | .errRange => "err:range"
+  | .errOther => "err:1105"
 
 /-- impl obs, exact obs, acceptance range, region name if the model says the case fails -/
 def decide3 (impl exact : Obs) (resOk : Int → Bool) (region : String) : String :=
   if acceptable resOk impl exact then answer (render impl)
   else answer (render impl) (render exact) region
 
+def intBin (op : String) (lt : ITy) (lv : Int) (rt : ITy) (rv : Int) : String :=
+  let arith (o : AOp) : String :=
+    let region :=
+      if unsigned_operand_clamped lt lv rt rv then "unsigned_operand_clamped"
+      else if bigint_overflow_wraps o lt lv rt rv then "bigint_overflow_wraps"
+      else "-"
+    decide3 (implArith o lt lv rt rv) (exactArith o lv rv) (arithResOk lt rt) region
+  match op with
+  | "add" => arith .add
+  | "sub" => arith .sub
+  | "mul" => arith .mul
+  | "idiv" =>
+    let region :=
+      if intdiv_minint_by_minus1 lt lv rt rv then "intdiv_minint_by_minus1"
+      else if intdiv_mixed_negative_as_unsigned lt lv rt rv then "intdiv_mixed_negative_as_unsigned"
+      else "-"
+    decide3 (implIntDiv lt lv rt rv) (exactIntDiv lv rv) (intDivResOk lt rt) region
+  | "mod" => decide3 (implMod lv rv) (exactMod lv rv) (fun _ => true) "-"
+  | "div" => decide3 (implDiv lv rv) (exactDiv4 lv rv) (fun _ => true) "-"
+  | _ => answer "bad-case"
+
+/-- at least one DECIMAL operand: everything runs on decimals -/
+def decBin (op : String) (l r : Operand) : String :=
+  let a := l.toDec
+  let b := r.toDec
+  let u := l.unsignedInt || r.unsignedInt
+  match op with
+  | "add" => answer (render (implDecArith .add a b))
+  | "sub" => answer (render (implDecArith .sub a b))
+  | "mul" => answer (render (implDecArith .mul a b))
+  | "mod" =>
+    let region := if mod_quotient_exceeds_precision a b then "mod_quotient_exceeds_precision" else "-"
+    decide3 (implDecMod a b) (exactDecMod a b) (fun _ => true) region
+  | "idiv" =>
+    let region := if intdiv_dec_negative_as_unsigned u a b then "intdiv_mixed_negative_as_unsigned" else "-"
+    decide3 (implDecIntDiv u a b) (exactDecIntDiv a b) (decIntDivResOk u) region
+  | "div" =>
+    let region := if div_internal_scale_not_above_final a b then "div_internal_scale_not_above_final" else "-"
+    decide3 (implDecDiv a b) (exactDecDiv a b) (fun _ => true) region
+  | _ => answer "bad-case"
+
 def binCase (op : String) (l r : Operand) : String :=
-  match l.v, r.v with
-  | some lv, some rv =>
-    let lt := l.ty
-    let rt := r.ty
-    let arith (o : AOp) : String :=
-      let region :=
-        if unsigned_operand_clamped lt lv rt rv then "unsigned_operand_clamped"
-        else if bigint_overflow_wraps o lt lv rt rv then "bigint_overflow_wraps"
-        else "-"
-      decide3 (implArith o lt lv rt rv) (exactArith o lv rv) (arithResOk lt rt) region
-    match op with
-    | "add" => arith .add
-    | "sub" => arith .sub
-    | "mul" => arith .mul
-    | "idiv" =>
-      let region :=
-        if intdiv_minint_by_minus1 lt lv rt rv then "intdiv_minint_by_minus1"
-        else if intdiv_mixed_negative_as_unsigned lt lv rt rv then "intdiv_mixed_negative_as_unsigned"
-        else "-"
-      decide3 (implIntDiv lt lv rt rv) (exactIntDiv lv rv) (intDivResOk lt rt) region
-    | "mod" => decide3 (implMod lv rv) (exactMod lv rv) (fun _ => true) "-"
-    | "div" => decide3 (implDiv lv rv) (exactDiv4 lv rv) (fun _ => true) "-"
-    | _ => answer "bad-case"
-  | _, _ => answer "null"
+  if l.isNull || r.isNull then answer "null"
+  else
+    match l, r with
+    | .int lt (some lv), .int rt (some rv) => intBin op lt lv rt rv
+    | _, _ => decBin op l r
 
 def negCase (l : Operand) : String :=
-  match l.v with
-  | none => answer "null"
-  | some v =>
+  match l with
+  | .int _ none => answer "null"
+  | .int ty (some v) =>
     let region :=
-      if neg_unsigned_wraps l.ty v then "neg_unsigned_wraps"
-      else if neg_mediumint_min_clamped l.ty v then "neg_mediumint_min_clamped"
+      if neg_unsigned_wraps ty v then "neg_unsigned_wraps"
+      else if neg_mediumint_min_clamped ty v then "neg_mediumint_min_clamped"
       else "-"
-    decide3 (implNeg l.ty v) (exactNeg v) negResOk region
+    decide3 (implNeg ty v) (exactNeg v) negResOk region
+  | _ => answer "bad-case"
 
 def handle (p : List Sexp) : String :=
   match p with
